@@ -628,6 +628,7 @@ def _loop_nest(fn: ast.FunctionDef, count_name: str) -> dict:
     for st in ast.walk(fn):
         if isinstance(st, ast.For) and ast.unparse(st.iter) == f'reversed(range({count_name}))':
             order = ['mip_reversed']
+            roles = {ast.unparse(st.target): 'mip_reversed'}     # loop variable -> what it counts (names do not matter)
             cur = st
             body = cur.body
             dims = {}
@@ -646,6 +647,7 @@ def _loop_nest(fn: ast.FunctionDef, count_name: str) -> dict:
                     order.append('depth_or_side')
                 else:
                     _err(cur, f'{fn.name}: unknown loop {it}')
+                roles[ast.unparse(cur.target)] = order[-1]
                 body = cur.body
             key = None
             for b in ast.walk(cur):
@@ -653,7 +655,7 @@ def _loop_nest(fn: ast.FunctionDef, count_name: str) -> dict:
                     key = [ast.unparse(e) for e in b.slice.elts]
             if key is None:
                 _err(st, f'{fn.name}: frame table access not found')
-            return {'order': order, 'key': key, 'var': st.target.id, 'dims': dims, 'line': st.lineno}
+            return {'order': order, 'key': key, 'key_roles': [roles.get(k, k) for k in key], 'var': st.target.id, 'dims': dims, 'line': st.lineno}
     _err(fn, f'{fn.name}: mipmap loop over reversed(range({count_name})) not found')
 
 
@@ -719,9 +721,17 @@ def _zexpr(node: ast.expr, names: dict[str, str]) -> str:
     _err(node, f'arithmetic not understood: {s}')
 
 
-def _pixel_access(cls: ast.ClassDef, fn: ast.FunctionDef) -> dict:
-    # helper methods of the same class (e.g. a shared bounds check + offset computation) are inlined first
-    fn = c15_norm.inline_self_calls(cls, fn)
+def _split_const(node: ast.expr) -> tuple[ast.expr, int]:
+    """E + k  ->  (E, k);  E -> (E, 0)"""
+    if isinstance(node, ast.BinOp) and isinstance(node.op, ast.Add) and isinstance(node.right, ast.Constant) and type(node.right.value) is int:
+        return node.left, node.right.value
+    return node, 0
+
+
+def _pixel_access(cls: ast.ClassDef, fn: ast.FunctionDef, tree: ast.Module | None = None) -> dict:
+    # helper methods of the same class (e.g. a shared bounds check + offset computation) are inlined first; locals that
+    # merely name an expression (`off = (y * self.width + x) * 4`) are replaced by the expression (c15_norm)
+    fn = c15_norm.inline_self_calls(cls, fn, tree=tree)
     unpack = [st for st in fn.body if isinstance(st, ast.Assign) and ast.unparse(st.targets[0]) in ('(x, y)', 'x, y')]
     if len(unpack) != 1 or ast.unparse(unpack[0].value) != 'item':
         _err(fn, f'{fn.name}: `x, y = item` not found')
@@ -732,34 +742,35 @@ def _pixel_access(cls: ast.ClassDef, fn: ast.FunctionDef) -> dict:
         if exc is None or 'IndexError' not in ast.unparse(exc) or c.orelse:
             _err(c, f'{fn.name}: raise in bounds test is not IndexError')
         atoms += _nnf_reject(c.test, False)
-    offs = [st for st in fn.body if isinstance(st, ast.Assign) and ast.unparse(st.targets[0]) == 'off']
-    if len(offs) != 1:
-        _err(fn, f'{fn.name}: `off = ...` not found')
     names = {'x': 'x', 'y': 'y', 'self.width': 'w', 'self.height': 'h'}
-    off = _zexpr(offs[0].value, names)
-    # every use of self._data must be off .. off+3, after the test
+    # every use of self._data must be E+0 .. E+3 for ONE offset expression E, after the test
     first_use = None
     span = 0
+    bases: dict[str, ast.expr] = {}
     for st in fn.body:
         for n in ast.walk(st):
             if isinstance(n, ast.Subscript) and ast.unparse(n.value) == 'self._data':
-                first_use = first_use or st.lineno
+                first_use = first_use if first_use is not None else c15_norm.seq(st)
                 if isinstance(n.slice, ast.Slice):
-                    lo, hi = ast.unparse(n.slice.lower), ast.unparse(n.slice.upper)
-                    if lo != 'off' or not hi.startswith('off + ') or n.slice.step is not None:
-                        _err(n, f'{fn.name}: data slice not off:off+k')
-                    span = max(span, int(hi[6:]))
+                    if n.slice.lower is None or n.slice.upper is None or n.slice.step is not None:
+                        _err(n, f'{fn.name}: data slice not E:E+k')
+                    (lo, k0), (hi, k1) = _split_const(n.slice.lower), _split_const(n.slice.upper)
+                    if ast.unparse(lo) != ast.unparse(hi) or k0 != 0 or k1 <= 0:
+                        _err(n, f'{fn.name}: data slice not E:E+k')
+                    bases[ast.unparse(lo)] = lo
+                    span = max(span, k1)
                 else:
-                    s = ast.unparse(n.slice)
-                    if s == 'off':
-                        span = max(span, 1)
-                    elif s.startswith('off + ') and s[6:].isdigit():
-                        span = max(span, int(s[6:]) + 1)
-                    else:
-                        _err(n, f'{fn.name}: data index not off+k: {s}')
+                    e, k = _split_const(n.slice)
+                    if k < 0:
+                        _err(n, f'{fn.name}: data index not E+k: {ast.unparse(n.slice)}')
+                    bases[ast.unparse(e)] = e
+                    span = max(span, k + 1)
     if first_use is None:
         _err(fn, f'{fn.name}: no pixel data access found')
-    if checks and max(c.lineno for c in checks) > first_use:
+    if len(bases) != 1:
+        _err(fn, f'{fn.name}: pixel data accessed at more than one offset expression: {sorted(bases)}')
+    off = _zexpr(next(iter(bases.values())), names)
+    if checks and max(c15_norm.seq(c) for c in checks) > first_use:
         _err(fn, f'{fn.name}: bounds test after the data access')
     return {'atoms': atoms, 'off': off, 'span': span, 'line': fn.lineno}
 
@@ -801,58 +812,216 @@ def _scale_down(fn: ast.FunctionDef) -> dict:
     got = [d[0] for d in defs]
     if sorted(got) != ['horiz_off', 'per_column', 'per_row', 'vert_off']:
         _err(fn, f'scale_down: offsets computed: {got}')
-    # filter branches
+    # filter branches: both are evaluated SYMBOLICALLY (locals are names for polynomials / sums of texels, loops over a
+    # literal range of channels are unrolled), so renamed locals, extra locals and reordered addends do not matter
     if i >= len(body) or not isinstance(body[i], ast.If):
         _err(fn, 'scale_down: filter dispatch not found')
     disp = body[i]
     near, bil = disp, (disp.orelse[0] if disp.orelse and isinstance(disp.orelse[0], ast.If) else None)
     if bil is None or ast.unparse(bil.test) != 'filt.value == 4':
         _err(disp, 'scale_down: bilinear branch not found')
-    local = dict(names, x='x', y='y')
-    offs = {}
-    terms: list[tuple[bool, bool]] = []
-    div = None
-    for n in ast.walk(bil):
-        if isinstance(n, ast.Assign) and isinstance(n.targets[0], ast.Name) and n.targets[0].id in ('off', 'off2'):
-            offs[n.targets[0].id] = _zexpr(n.value, local)
-        if isinstance(n, ast.Assign) and isinstance(n.targets[0], ast.Subscript) and ast.unparse(n.targets[0]) == 'dest[off + channel]':
-            v = n.value
-            if not (isinstance(v, ast.BinOp) and isinstance(v.op, ast.FloorDiv) and isinstance(v.right, ast.Constant)):
-                _err(n, 'scale_down: bilinear value is not a floor division')
-            div = v.right.value
-            def addends(e):
-                if isinstance(e, ast.BinOp) and isinstance(e.op, ast.Add):
-                    return addends(e.left) + addends(e.right)
-                return [e]
-            for t in addends(v.left):
-                if not (isinstance(t, ast.Subscript) and ast.unparse(t.value) == 'src'):
-                    _err(t, 'scale_down: bilinear addend is not src[...]')
-                parts = sorted(ast.unparse(p) for p in addends(t.slice))
-                base = [p for p in parts if p not in ('horiz_off', 'vert_off')]
-                if base != ['channel', 'off2'] or len(parts) != len(set(parts)):
-                    _err(t, f'scale_down: bilinear index {parts}')
-                terms.append(('horiz_off' in parts, 'vert_off' in parts))
-    if div is None or set(offs) != {'off', 'off2'}:
+    syms = {'width', 'height', 'src_width', 'src_height', 'horiz_off', 'vert_off', 'per_row', 'per_column'}
+    brec = _sym_run(bil.body, syms)
+    px = [r for r in brec if r[0] == 'px']
+    if len(px) != len(brec) or not px:
         _err(bil, 'scale_down: bilinear body not recognised')
-    # nearest: pos_off table
-    near_terms = None
-    for n in ast.walk(near.body[0] if near.body else near):
-        pass
-    for n in ast.walk(near):
-        if isinstance(n, ast.Assign) and isinstance(n.targets[0], ast.Name) and n.targets[0].id == 'pos_off':
-            v = n.value
-            if isinstance(v, ast.Subscript) and isinstance(v.value, ast.List) and ast.unparse(v.slice) == 'filt.value':
-                near_terms = []
-                for e in v.value.elts:
-                    s = ast.unparse(e)
-                    parts = sorted(p.strip() for p in s.split('+'))
-                    if not set(parts) <= {'0', 'horiz_off', 'vert_off'}:
-                        _err(e, f'scale_down: nearest offset {s}')
-                    near_terms.append(('horiz_off' in parts, 'vert_off' in parts))
-    if near_terms is None:
+    dst = off2 = div = None
+    terms: list[tuple[bool, bool]] | None = None
+    H, V = _p_var('horiz_off'), _p_var('vert_off')
+    allowed = {_p_key({}): (False, False), _p_key(H): (True, False), _p_key(V): (False, True), _p_key(_p_add(H, V)): (True, True)}
+    chans = set()
+    for _, idx, val in px:
+        if val[0] != 'div':
+            _err(bil, 'scale_down: bilinear value is not a floor division of a sum of texels')
+        # the channel is the constant part of the destination index
+        c = idx.get((), 0)
+        chans.add(c)
+        d = _p_add(idx, _p_const(c), -1)
+        srcs = [_p_add(q, _p_const(c), -1) for q in val[1]]
+        base = [q for q in srcs if not any(('horiz_off' in m or 'vert_off' in m) for m in q)]
+        if len(base) != 1:
+            _err(bil, 'scale_down: bilinear addends have no common upper-left texel')
+        tt = []
+        for q in srcs:
+            k = _p_key(_p_add(q, base[0], -1))
+            if k not in allowed:
+                _err(bil, 'scale_down: bilinear addend is not the block corner + {0, horiz_off, vert_off, both}')
+            tt.append(allowed[k])
+        if dst is None:
+            dst, off2, div, terms = d, base[0], val[2], tt
+        elif _p_key(d) != _p_key(dst) or _p_key(base[0]) != _p_key(off2) or val[2] != div or tt != terms:
+            _err(bil, 'scale_down: the channels are not computed alike')
+    if chans != {0, 1, 2, 3}:
+        _err(bil, f'scale_down: bilinear channels written: {sorted(chans)}')
+    if not (_p_vars(dst) <= {'width', 'x', 'y'} and _p_vars(off2) <= {'per_row', 'per_column', 'x', 'y'}):
+        _err(bil, 'scale_down: bilinear offsets use unexpected names')
+    # nearest: dest[E:E+4] = src[E2 + T[filt.value] : E2 + T[filt.value] + 4]
+    nrec = _sym_run(near.body, syms)
+    if len(nrec) != 1 or nrec[0][0] != 'slice':
+        _err(near, 'scale_down: nearest-neighbour copy not recognised')
+    _, lo, hi, lo2, hi2 = nrec[0]
+    if lo2[0] != 'tab' or hi2[0] != 'tab' or len(lo2[1]) != len(hi2[1]) or lo[0] != 'p' or hi[0] != 'p':
         _err(near, 'scale_down: nearest-neighbour offset table not found')
-    return {'defs': defs, 'off': offs['off'], 'off2': offs['off2'], 'terms': terms, 'div': div, 'nearest': near_terms,
-            'line': fn.lineno}
+    near_terms = []
+    same = _p_key(lo[1]) == _p_key(dst) and _p_key(_p_add(hi[1], lo[1], -1)) == _p_key(_p_const(4))
+    for a, bq in zip(lo2[1], hi2[1]):
+        k = _p_key(_p_add(a, off2, -1))
+        if k not in allowed:
+            _err(near, 'scale_down: nearest offset is not the block corner + {0, horiz_off, vert_off, both}')
+        near_terms.append(allowed[k])
+        same = same and _p_key(_p_add(bq, a, -1)) == _p_key(_p_const(4))
+    ren = {'width': 'w', 'x': 'x', 'y': 'y', 'per_row': 'per_row', 'per_column': 'per_column'}
+    return {'defs': defs, 'off': _p_coq(dst, ren), 'off2': _p_coq(off2, ren), 'terms': terms, 'div': div, 'nearest': near_terms,
+            'nearest_same_offsets': bool(same), 'line': fn.lineno}
+
+
+# ---- polynomials over names (symbolic evaluation of index arithmetic) --------------------------------------------
+def _p_const(c: int) -> dict:
+    return {(): c} if c else {}
+
+
+def _p_var(v: str) -> dict:
+    return {(v,): 1}
+
+
+def _p_add(a: dict, b: dict, sign: int = 1) -> dict:
+    out = dict(a)
+    for m, c in b.items():
+        out[m] = out.get(m, 0) + sign * c
+        if out[m] == 0:
+            del out[m]
+    return out
+
+
+def _p_mul(a: dict, b: dict) -> dict:
+    out: dict = {}
+    for m1, c1 in a.items():
+        for m2, c2 in b.items():
+            m = tuple(sorted(m1 + m2))
+            out[m] = out.get(m, 0) + c1 * c2
+            if out[m] == 0:
+                del out[m]
+    return out
+
+
+def _p_key(a: dict):
+    return tuple(sorted(a.items()))
+
+
+def _p_vars(a: dict) -> set[str]:
+    return {v for m in a for v in m}
+
+
+def _p_coq(a: dict, ren: dict[str, str]) -> str:
+    if not a:
+        return '0'
+    parts = []
+    for m, c in sorted(a.items()):
+        f = [str(c) if c >= 0 else f'({c})'] + [ren[v] for v in m]
+        parts.append('(' + ' * '.join(f) + ')')
+    return '(' + ' + '.join(parts) + ')'
+
+
+def _sym_run(stmts: list[ast.stmt], syms: set[str]) -> list[tuple]:
+    """Symbolic run of straight-line index arithmetic inside `for <y> in range(height): for <x> in range(width):` loops.
+    -> records ('px', index polynomial, ('div', [source index polynomials], n))  for  dest[i] = (src[a] + src[b] + ...) // n
+               ('slice', lo, hi, lo2, hi2)                                       for  dest[lo:hi] = src[lo2:hi2]
+    A local is whatever its defining expression evaluates to; `for c in range(4)` / `in (0, 1, 2, 3)` is unrolled."""
+    out: list[tuple] = []
+
+    def ev(node: ast.expr, env: dict):
+        if isinstance(node, ast.Constant) and type(node.value) is int:
+            return ('p', _p_const(node.value))
+        if isinstance(node, ast.Name):
+            if node.id in env:
+                return env[node.id]
+            if node.id in syms:
+                return ('p', _p_var(node.id))
+            _err(node, f'arithmetic not understood: {node.id}')
+        if isinstance(node, ast.BinOp) and isinstance(node.op, (ast.Add, ast.Sub, ast.Mult)):
+            a, b = ev(node.left, env), ev(node.right, env)
+            if isinstance(node.op, ast.Mult):
+                if a[0] == b[0] == 'p':
+                    return ('p', _p_mul(a[1], b[1]))
+            elif a[0] == b[0] == 'p':
+                return ('p', _p_add(a[1], b[1], 1 if isinstance(node.op, ast.Add) else -1))
+            elif isinstance(node.op, ast.Add) and a[0] == b[0] == 'src':
+                return ('src', a[1] + b[1])
+            elif isinstance(node.op, ast.Add) and {a[0], b[0]} == {'p', 'tab'}:
+                pp, tt = (a, b) if a[0] == 'p' else (b, a)
+                return ('tab', [_p_add(t, pp[1]) for t in tt[1]])
+            _err(node, f'arithmetic not understood: {ast.unparse(node)}')
+        if isinstance(node, ast.BinOp) and isinstance(node.op, ast.FloorDiv):
+            a = ev(node.left, env)
+            if a[0] == 'src' and isinstance(node.right, ast.Constant) and type(node.right.value) is int:
+                return ('div', a[1], node.right.value)
+            _err(node, f'division not understood: {ast.unparse(node)}')
+        if isinstance(node, ast.Subscript) and isinstance(node.value, ast.Name) and node.value.id == 'src' and node.value.id not in env:
+            if isinstance(node.slice, ast.Slice):
+                if node.slice.lower is None or node.slice.upper is None or node.slice.step is not None:
+                    _err(node, 'source slice without bounds')
+                return ('srcslice', ev(node.slice.lower, env), ev(node.slice.upper, env))
+            i_ = ev(node.slice, env)
+            if i_[0] != 'p':
+                _err(node, 'source index is not arithmetic')
+            return ('src', [i_[1]])
+        if isinstance(node, ast.Subscript) and isinstance(node.value, (ast.List, ast.Tuple)) and ast.unparse(node.slice) == 'filt.value':
+            es = [ev(e, env) for e in node.value.elts]
+            if any(e[0] != 'p' for e in es):
+                _err(node, 'offset table entries are not arithmetic')
+            return ('tab', [e[1] for e in es])
+        _err(node, f'arithmetic not understood: {ast.unparse(node)}')
+
+    def run(body: list[ast.stmt], env: dict) -> None:
+        for st in body:
+            if isinstance(st, ast.Expr) and isinstance(st.value, ast.Constant):
+                continue
+            if isinstance(st, (ast.Assign, ast.AnnAssign)) and (st.value is not None):
+                tgts = st.targets if isinstance(st, ast.Assign) else [st.target]
+                if len(tgts) != 1:
+                    _err(st, 'scale_down: chained assignment')
+                t = tgts[0]
+                if isinstance(t, ast.Name):
+                    if t.id in syms or t.id in ('src', 'dest'):
+                        _err(st, f'scale_down: {t.id} is rebound inside a filter branch')
+                    env[t.id] = ev(st.value, env)
+                    continue
+                if isinstance(t, ast.Subscript) and isinstance(t.value, ast.Name) and t.value.id == 'dest' and 'dest' not in env:
+                    v = ev(st.value, env)
+                    if isinstance(t.slice, ast.Slice):
+                        if t.slice.lower is None or t.slice.upper is None or t.slice.step is not None or v[0] != 'srcslice':
+                            _err(st, 'scale_down: slice copy not understood')
+                        out.append(('slice', ev(t.slice.lower, env), ev(t.slice.upper, env), v[1], v[2]))
+                    else:
+                        i_ = ev(t.slice, env)
+                        if i_[0] != 'p':
+                            _err(st, 'scale_down: destination index is not arithmetic')
+                        out.append(('px', i_[1], v))
+                    continue
+                _err(st, f'scale_down: assignment not understood: {ast.unparse(st)[:60]}')
+            if isinstance(st, ast.For) and isinstance(st.target, ast.Name) and not st.orelse:
+                it = st.iter
+                its = ast.unparse(it)
+                if its in ('range(height)', 'range(width)'):
+                    role = 'y' if its == 'range(height)' else 'x'
+                    if any(role in _p_vars(v[1]) for v in env.values() if v[0] == 'p'):
+                        _err(st, f'scale_down: two loops over {its}')
+                    run(st.body, dict(env, **{st.target.id: ('p', _p_var(role))}))
+                    continue
+                vals = None
+                if isinstance(it, ast.Call) and isinstance(it.func, ast.Name) and it.func.id == 'range' and len(it.args) == 1 \
+                        and isinstance(it.args[0], ast.Constant) and type(it.args[0].value) is int and 0 < it.args[0].value <= 8:
+                    vals = list(range(it.args[0].value))
+                elif isinstance(it, (ast.Tuple, ast.List)) and it.elts and all(isinstance(e, ast.Constant) and type(e.value) is int for e in it.elts):
+                    vals = [e.value for e in it.elts]
+                if vals is None:
+                    _err(st, f'scale_down: loop not understood: {its}')
+                for c in vals:
+                    run(st.body, dict(env, **{st.target.id: ('p', _p_const(c))}))
+                continue
+            _err(st, f'scale_down: statement not understood: {ast.unparse(st)[:60]}')
+    run(stmts, {})
+    return out
 
 
 # ---- side lists (cubemaps with / without sphere map) -------------------------------------------------------------
@@ -862,8 +1031,18 @@ def _if_else(stmts: list[ast.stmt]) -> list[ast.stmt]:
     for i, st in enumerate(stmts):
         if isinstance(st, ast.If) and not st.orelse and st.body and isinstance(st.body[-1], ast.Return) and stmts[i + 1:]:
             new = ast.If(test=st.test, body=st.body, orelse=_if_else(stmts[i + 1:]))
-            return stmts[:i] + [ast.copy_location(new, st)]
-    return stmts
+            return stmts[:i] + [_positive(ast.copy_location(new, st))]
+    return [_positive(s) if isinstance(s, ast.If) else s for s in stmts]
+
+
+def _positive(st: ast.If) -> ast.If:
+    """`if A not in B: X else: Y`  ==  `if A in B: Y else: X`  (likewise `is not`, `!=`, `not c`) when both branches exist"""
+    t = st.test
+    neg = (isinstance(t, ast.UnaryOp) and isinstance(t.op, ast.Not)) or \
+          (isinstance(t, ast.Compare) and len(t.ops) == 1 and isinstance(t.ops[0], (ast.NotIn, ast.IsNot, ast.NotEq)))
+    if neg and st.orelse:
+        return ast.copy_location(ast.If(test=c15_norm.negate(t), body=st.orelse, orelse=st.body), st)
+    return st
 
 
 def _side_list(tree: ast.Module, node: ast.expr, depth: int = 0) -> list[int]:
@@ -1066,8 +1245,8 @@ def layout_info() -> dict:
         'mip': _mip_loop(_find_method(vtf, '__init__')),
         'save': _loop_nest(_find_method(vtf, 'save'), 'self.mipmap_count'),
         'read': _loop_nest(_find_method(vtf, 'read'), 'mipmap_count'),
-        'getitem': _pixel_access(frame, _find_method(frame, '__getitem__')),
-        'setitem': _pixel_access(frame, _find_method(frame, '__setitem__')),
+        'getitem': _pixel_access(frame, _find_method(frame, '__getitem__'), tree),
+        'setitem': _pixel_access(frame, _find_method(frame, '__setitem__'), tree),
     }
     info['sides'] = _sides_info(tree, vtf)
     rd = info['read']['dims']
@@ -1122,7 +1301,7 @@ def translate_layout() -> tuple[str, dict]:
          f'  sd_then := [{"; ".join(str(x) for x in info["sides"]["then"])}]%nat; sd_else := [{"; ".join(str(x) for x in info["sides"]["else"])}]%nat;',
          f'  sd_save := {info["sides"]["save"]}; sd_read := {info["sides"]["read"]}; sd_missing_blank := {b(info["sides"]["missing_blank"])} |}}.',
          f'(* key tuples: save {info["save"]["key"]}  read {info["read"]["key"]} *)',
-         f'Definition frame_key_is_frame_depth_mip : bool := {b(info["save"]["key"] == ["frame_ind", "depth_or_cube", "data_mipmap"] and info["read"]["key"] == ["frame_ind", "depth_or_cube", "data_mipmap"])}.',
+         f'Definition frame_key_is_frame_depth_mip : bool := {b(info["save"]["key_roles"] == ["frame", "depth_or_side", "mip_reversed"] and info["read"]["key_roles"] == ["frame", "depth_or_side", "mip_reversed"])}.',
          f'Definition read_dims_are_max_shr_1 : bool := {b(info["read_dims_max_shr"])}.',
          f'Definition compute_mipmaps_from_previous_level : bool := {b(info["compute_from_previous_level"])}.',
          '',
@@ -1147,6 +1326,7 @@ def translate_layout() -> tuple[str, dict]:
           f'Definition bilinear_terms : list (bool * bool) := [{"; ".join(f"({b(h)}, {b(v)})" for h, v in sc["terms"])}].',
           f'Definition bilinear_div : Z := {sc["div"]}.',
           f'Definition nearest_terms : list (bool * bool) := [{"; ".join(f"({b(h)}, {b(v)})" for h, v in sc["nearest"])}].',
+          f'Definition nearest_offsets_same_as_bilinear : bool := {b(sc["nearest_same_offsets"])}.',
           '']
     return '\n'.join(L), info
 
